@@ -27,6 +27,9 @@ TarOf(e) == [names |-> e.names, types |-> e.types, alg |-> e.alg, hex |-> e.hex,
              layoutN |-> e.layoutN, layoutV |-> e.layoutV, indexN |-> e.indexN, idigs |-> e.idigs, irefs |-> e.irefs,
              dockN |-> e.dockN, dcfg |-> e.dcfg, dlayers |-> e.dlayers, dtags |-> e.dtags, dforms |-> e.dforms]
 
+\* imp_begin: want = the digest to bring over (req = ""), or the request and what index.json says per entry
+SelOf(e) == [req |-> e.req, reqtag |-> e.reqtag, ids |-> e.ids, refs |-> e.refs, reftags |-> e.reftags,
+             names |-> e.names, nametags |-> e.nametags]
 TInit == PInit /\ l = 1
 TNext ==
   /\ l <= Len(Log)
@@ -34,7 +37,8 @@ TNext ==
   /\ \/ Ev.ev = "src" /\ PSrc(SrcOf(Ev))
      \/ Ev.ev = "tar" /\ PTar(TarOf(Ev))
      \/ Ev.ev = "export" /\ PExport(Ev.ok = 1, Ev.skip = 1)
-     \/ Ev.ev = "imp_begin" /\ PImpBegin(Ev.id, Ev.want)
+     \/ Ev.ev = "imp_begin" /\ PImpBegin(Ev.id, IF Ev.req = "" THEN {Ev.want} ELSE SelAllowed(SelOf(Ev)),
+                                          IF Ev.req = "" THEN TRUE ELSE SelMust(SelOf(Ev)))
      \/ Ev.ev = "imp_result" /\ PImpResult(Ev.id, Ev.ok = 1)
      \/ Ev.ev = "imp_target" /\ PImpTarget(Ev.id, Objs(Ev), Ev.top, Ev.skip = 1)
      \/ Ev.ev = "dk_archive" /\ PDkArchive([cfg |-> Ev.cfg, layers |-> Ev.layers])
